@@ -167,6 +167,14 @@ Theorem c08_source_change_detected : forall w w' n v,
 Proof. exact file_valid_detects. Qed.
 Print Assumptions c08_source_change_detected.
 
+(* the inode is one of the compared fields: a source REPLACED by another file (same size, same modification time,
+   other inode) is detected *)
+Theorem c08_source_replaced_detected : forall w w' n v,
+  wf_world w -> wf_world w' -> file_valid w n v = true ->
+  fi_inode (stat_w w n) <> fi_inode (stat_w w' n) -> file_valid w' n v = false.
+Proof. exact source_replaced_detected. Qed.
+Print Assumptions c08_source_replaced_detected.
+
 Theorem c08_source_delete_detected : forall w n v,
   wf_world w -> is_missing (stat_w w n) = false -> file_valid w n v = true -> file_valid (del w n) n v = false.
 Proof. exact source_delete_detected. Qed.
@@ -291,3 +299,13 @@ Example c08_example_virtual_gains_producer :
   node_type ex_all = 3 /\ producers ex_d2 ex_all = [] /\ producers ex_d3 ex_all = [ex_call] /\
   node_sig_tokens (node_def ex_d2 ex_all) <> node_sig_tokens (node_def ex_d3 ex_all).
 Proof. vm_compute. repeat split; try reflexivity. discriminate. Qed.
+
+Example c08_example_source_replaced :
+  let w' := put (bs_world ex_state) ex_src [57] ex_replaced_stamp in
+  fi_size (stat_w w' ex_src) = fi_size (stat_w (bs_world ex_state) ex_src) /\
+  fi_sec (stat_w w' ex_src) = fi_sec (stat_w (bs_world ex_state) ex_src) /\
+  fi_nsec (stat_w w' ex_src) = fi_nsec (stat_w (bs_world ex_state) ex_src) /\
+  fi_inode (stat_w w' ex_src) <> fi_inode (stat_w (bs_world ex_state) ex_src) /\
+  file_valid (bs_world ex_state) ex_src (val_of ex_state (KN ex_src)) = true /\
+  file_valid w' ex_src (val_of ex_state (KN ex_src)) = false.
+Proof. exact ex_source_replaced. Qed.
